@@ -1,5 +1,8 @@
 import MicroHttp.Props.C18
+import MicroHttp.Props.Tables
 #print axioms MicroHttp.C18.kill_wins
 #print axioms MicroHttp.C18.registered_fits_batch
 #print axioms MicroHttp.C18.transparent
 #print axioms MicroHttp.C18.kill_switch_kept
+#print axioms MicroHttp.Tables.event_array_extra
+#print axioms MicroHttp.Tables.max_connections
